@@ -4,8 +4,9 @@
 set -u
 P=$1; X=$2; shift 2
 CHECKS=${@:-$P}
-SRC=/tmp/wt-out/$P
-WT=/tmp/sv/$P-$X
+SRC=${SEED_ROOT:-/tmp/wt-out}/$P
+LBL=${SEED_LABEL:-$X}
+WT=/tmp/sv/$P-$X-$$
 rm -rf $WT; mkdir -p /tmp/sv
 git -C /repo worktree add --detach $WT HEAD -q || exit 2
 cd $WT
@@ -13,7 +14,7 @@ base_demo=$(/venv/bin/python $SRC/${X}_demo.py >/dev/null 2>&1; echo $?)
 if ! git apply $SRC/$X.diff; then echo "PATCH DOES NOT APPLY"; git -C /repo worktree remove --force $WT; exit 2; fi
 tests=$(/venv/bin/python -m pytest -q -p no:cacheprovider 2>&1 | tail -1)
 mut_demo=$(/venv/bin/python $SRC/${X}_demo.py >/dev/null 2>&1; echo $?)
-echo "seed $P-$X: demo(unchanged)=$base_demo demo(changed)=$mut_demo tests: $tests"
+echo "seed $P-$LBL: demo(unchanged)=$base_demo demo(changed)=$mut_demo tests: $tests"
 git checkout -q -- smartquery/gen 2>/dev/null
 caught=""
 for c in $CHECKS; do
@@ -24,7 +25,7 @@ for c in $CHECKS; do
   [ $rc -eq 1 ] && caught="$caught $c"
 done
 echo "caught by:${caught:- NONE}"
-D=/verif/seeded/$P-$X
+D=/verif/seeded/$P-$LBL
 mkdir -p $D
 cp $SRC/$X.diff $D/patch.diff; cp $SRC/${X}_demo.py $D/demo.py
 python3 - <<PY
